@@ -1061,7 +1061,7 @@ class EventType(VersionedOntologyElement, MutableMapping):
         for attribute_name, max_length in attribute_lengths.items():
             if len(self.__attr[attribute_name]) > max_length:
                 raise EDXMLOntologyValidationError(
-                    'The %s attribute of event type "%s" is too long.' % attribute_name
+                    'The %s attribute of event type "%s" is too long.' % (attribute_name, self.__attr['name'])
                 )
 
         if not re.match(self.NAME_PATTERN, self.__attr['name']):
